@@ -132,22 +132,49 @@ where
 
     // `@@ -start[,count] +start[,count] @@ optional section heading`; the heading may
     // itself contain `+<digits>`, so the ranges are matched where they stand.
-    let lines_pattern = Regex::new(r"^@@ -\d+(?:,\d+)? \+(\d+)(,(\d+))? @@").unwrap();
+    let lines_pattern = Regex::new(r"^@@ -\d+(?:,(\d+))? \+(\d+)(?:,(\d+))? @@").unwrap();
 
     // Group the filter so that the anchors apply to the whole pattern, not only
     // to the first and the last alternative of `a|b`.
     let file_filter = Regex::new(&format!("^(?:{file_filter})$"))?;
 
     let mut current_file = None;
+    // Lines of the current hunk that are still to come, (pre-image, post-image).
+    // They are source text: however much one looks like a header, it is not one.
+    let mut hunk_remaining: (u32, u32) = (0, 0);
 
     let mut files = HashSet::new();
     let mut ranges = vec![];
     for line in io::BufReader::new(from).lines() {
         let line = line.unwrap();
 
+        if hunk_remaining != (0, 0) {
+            match line.as_bytes().first() {
+                Some(b'+') => hunk_remaining.1 = hunk_remaining.1.saturating_sub(1),
+                Some(b'-') => hunk_remaining.0 = hunk_remaining.0.saturating_sub(1),
+                Some(b'\\') => {}
+                _ => {
+                    hunk_remaining.0 = hunk_remaining.0.saturating_sub(1);
+                    hunk_remaining.1 = hunk_remaining.1.saturating_sub(1);
+                }
+            }
+            continue;
+        }
+
         if let Some(captures) = diff_pattern.captures(&line) {
             current_file = Some(captures.get(1).unwrap().as_str().to_owned());
         }
+
+        let lines_captures = match lines_pattern.captures(&line) {
+            Some(captures) => captures,
+            None => continue,
+        };
+        let count = |group: usize| match lines_captures.get(group) {
+            Some(count) => count.as_str().parse::<u32>().unwrap(),
+            None => 1,
+        };
+        let line_count = count(3);
+        hunk_remaining = (count(1), line_count);
 
         let file = match current_file {
             Some(ref f) => &**f,
@@ -160,21 +187,12 @@ where
             continue;
         }
 
-        let lines_captures = match lines_pattern.captures(&line) {
-            Some(captures) => captures,
-            None => continue,
-        };
-
         let start_line = lines_captures
-            .get(1)
+            .get(2)
             .unwrap()
             .as_str()
             .parse::<u32>()
             .unwrap();
-        let line_count = match lines_captures.get(3) {
-            Some(line_count) => line_count.as_str().parse::<u32>().unwrap(),
-            None => 1,
-        };
 
         if line_count == 0 {
             continue;
